@@ -62,7 +62,7 @@ def run(chk):
     chk.expect_count("C18.scope.sock", n, 7, "network-establishing awaits")
     # ---- hunt rules (F76-F78) --------------------------------------------------------------------------------------------------------------
     wb = repo.func(REQ, "ClientRequest._write_bytes")
-    cont = [a for a in prog.awaits_in(wb.node) if norm.raw(a.value) == "self._continue"]
+    cont = [a for a in prog.awaits_in(wb.node) if "self._continue" in norm.raw(a.value)]
     if not cont:
         chk.analysis_error("C18.readtimer: `await self._continue` not found in ClientRequest._write_bytes")
     for a in cont:
@@ -74,6 +74,15 @@ def run(chk):
         else:
             chk.violation("C18.readtimer", a, "await self._continue", "protocol.start_timeout() before the wait",
                           "the read timer is started only after the body was written, i.e. after the wait for `100 Continue`: with expect100=True a server that never answers is waited for without any bound by sock_read")
+        # RFC 9110 10.1.1: a client SHOULD NOT wait for 100 (Continue) for an indefinite period - many servers (HTTP/1.0, or without expectation
+        # handling: aiohttp's own web.Server) never send it, and with sock_read unset only the total timeout would end the wait
+        v = a.value
+        bounded = isinstance(v, ast.Call) and norm.raw(v.func) in ("asyncio.wait", "asyncio.wait_for") and (any(k.arg == "timeout" for k in v.keywords) or len(v.args) >= 2)
+        if bounded:
+            chk.ok("C18.scope.continue", a, "the wait for `100 Continue` has its own bound; the body is sent when it expires")
+        else:
+            chk.violation("C18.scope.continue", a, "await self._continue", "asyncio.wait((self._continue,), timeout=<bound>)",
+                          "the request body is held back for `100 Continue` without a bound of its own: against an HTTP/1.0 peer or a server without expectation handling (aiohttp's web.Server) the client waits for the 100 while the handler waits for the body - a deadlock that only ClientTimeout.total ends")
     rs = repo.func(REQ, "ClientResponse.start")
     rearm = [c for c, _b in K.exprs(rs, "protocol.start_timeout()")]
     if rearm and PC.has_lit(PC.pc(rearm[0]), "self._writer is None", True) is not None:
